@@ -7,7 +7,7 @@ RT = dict(resolveType=True)
 
 
 def dc(opts_arg):
-    return "import { defineComponent } from 'vue'; const user = 1; defineComponent((props: { a: string }) => {}%s);" % opts_arg
+    return "import { defineComponent } from 'vue'; const user = 1; defineComponent((p: { a: string }) => {}%s);" % opts_arg
 
 
 CASES = {
@@ -51,5 +51,6 @@ CASES = {
     "step_vmodel_computed": [dict(id="computed-arg", source="const a = <Comp v-model={[v, arg]} />;", expect=[r"\"onUpdate:\" \+ arg"])],
     "darm_vmodel_computed": [dict(id="computed-arg", source="const a = <Comp v-model={[v, arg]} />;", expect=[r"\"onUpdate:\" \+ arg"])],
     # ---- C13 ----
+    "step_on_strict": [dict(id="on-with-other-dynamic-prop", options=dict(optimize=True), source="const a = <div on={x} id={y} />;", expect=[r"\[\s*(\"id\",\s*\"on\"|\"on\",\s*\"id\")\s*\]"])],
     "step_nativeon": [dict(id="nativeOn-transformOn", options=dict(optimize=True, transformOn=True), source="const a = <div nativeOn={x} />;", forbid=[r"\[\s*\"nativeOn\"\s*\]"])],
 }
